@@ -346,6 +346,25 @@ func RunC01(env *Env, rep *Report) {
 	for _, sh := range c01SpelledShapes() {
 		cases = append(cases, c01CaseMode(sh, "c01/spelled/"+ShString(sh), false))
 	}
+	// a block-final command that differs from end / return only in letter
+	// case is an ordinary command (it falls through)
+	for _, kw := range []string{"END", "Return"} {
+		for si, sh := range c01SpelledShapes()[:3] {
+			cs := c01CaseMode(sh, fmt.Sprintf("c01/upper-case-terminator-name/%s/%d", kw, si), true)
+			s0 := scriptsOf(cs.Prog)[0]
+			var last *Cmd
+			switch st := s0.Body[0].(type) {
+			case *Cmd:
+				last = st
+			case *If:
+				last, _ = st.Bodies[0][len(st.Bodies[0])-1].(*Cmd)
+			}
+			if last != nil {
+				last.Name = L(kw)
+				cases = append(cases, cs)
+			}
+		}
+	}
 	rep.Bounds["spelled_name_skeletons"] = len(c01SpelledShapes())
 	if len(cases) > 0 {
 		src, _ := cases[len(cases)/2].Prog.Render()
